@@ -214,6 +214,8 @@ func checkMapLoop(p *Prog, own *Own, l *mapLoop) (shapes, problems []string) {
 		}
 		if okPhi {
 			shapes = append(shapes, "S3 flag: loop-carried variable only ever receives one constant")
+		} else if commutativeIntFold(l, phi) {
+			shapes = append(shapes, "S6 integer accumulator folded with a commutative, associative operator: the total does not depend on the order of the terms")
 		} else if collectsKeysThenSorts(l, phi) {
 			shapes = append(shapes, "S5 the keys are collected into a slice that is sorted before anything reads it")
 		} else {
@@ -872,4 +874,129 @@ func collectsKeysThenSorts(l *mapLoop, phi *ssa.Phi) bool {
 		}
 	}
 	return true
+}
+
+// commutativeIntFold: the loop-carried variable is an integer that every iteration either leaves alone or
+// replaces by (itself OP term) with OP one of + | & ^ * (commutative and associative on fixed-width integers,
+// wrap-around included) and a term that does not read the variable; and nothing else in the loop reads it, so
+// no intermediate total is observable.
+func commutativeIntFold(l *mapLoop, phi *ssa.Phi) bool {
+	bt, ok := phi.Type().Underlying().(*types.Basic)
+	if !ok || bt.Info()&types.IsInteger == 0 {
+		return false
+	}
+	var op token.Token
+	folds := map[ssa.Value]bool{ssa.Value(phi): true}
+	// values that are "the running total": the phi, inner phis merging it, and the fold results
+	var isTotal func(v ssa.Value, depth int) bool
+	isTotal = func(v ssa.Value, depth int) bool {
+		if folds[v] {
+			return true
+		}
+		if depth > 6 {
+			return false
+		}
+		switch x := v.(type) {
+		case *ssa.Phi:
+			if !l.body[x.Block()] {
+				return false
+			}
+			folds[v] = true
+			for _, e := range x.Edges {
+				if !isTotal(e, depth+1) {
+					delete(folds, v)
+					return false
+				}
+			}
+			return true
+		case *ssa.BinOp:
+			switch x.Op {
+			case token.ADD, token.OR, token.AND, token.XOR, token.MUL:
+			default:
+				return false
+			}
+			if op != 0 && op != x.Op {
+				return false
+			}
+			var term ssa.Value
+			switch {
+			case isTotal(x.X, depth+1):
+				term = x.Y
+			case isTotal(x.Y, depth+1):
+				term = x.X
+			default:
+				return false
+			}
+			if dependsOn(term, folds, 0) {
+				return false
+			}
+			op = x.Op
+			folds[v] = true
+			return true
+		}
+		return false
+	}
+	for i, e := range phi.Edges {
+		if !l.body[l.header.Preds[i]] {
+			continue
+		}
+		if !isTotal(e, 0) {
+			return false
+		}
+	}
+	// no other reader inside the loop
+	for v := range folds {
+		refs := v.(interface{ Referrers() *[]ssa.Instruction }).Referrers()
+		if refs == nil {
+			continue
+		}
+		for _, ref := range *refs {
+			if !l.body[ref.Block()] {
+				continue
+			}
+			if rv, ok := ref.(ssa.Value); ok && folds[rv] {
+				continue
+			}
+			if _, ok := ref.(*ssa.DebugRef); ok {
+				continue
+			}
+			return false
+		}
+	}
+	return op != 0
+}
+
+// dependsOn: v is computed (within a few steps of pure operators) from one of the given values.
+func dependsOn(v ssa.Value, set map[ssa.Value]bool, depth int) bool {
+	if set[v] {
+		return true
+	}
+	if depth > 6 {
+		return true
+	}
+	switch x := v.(type) {
+	case *ssa.BinOp:
+		return dependsOn(x.X, set, depth+1) || dependsOn(x.Y, set, depth+1)
+	case *ssa.UnOp:
+		return dependsOn(x.X, set, depth+1)
+	case *ssa.Convert:
+		return dependsOn(x.X, set, depth+1)
+	case *ssa.ChangeType:
+		return dependsOn(x.X, set, depth+1)
+	case *ssa.Phi:
+		for _, e := range x.Edges {
+			if set[e] {
+				return true
+			}
+		}
+		return false
+	case *ssa.Call:
+		for _, a := range x.Common().Args {
+			if set[a] {
+				return true
+			}
+		}
+		return false
+	}
+	return false
 }
